@@ -42,6 +42,7 @@ fn remove_slot(sc: &Scenario, i: usize) -> Scenario {
                 },
                 Edit::TogglePart(a, p) => fix(*a).map(|a| Edit::TogglePart(a, *p)),
                 Edit::Bump(a) => fix(*a).map(Edit::Bump),
+                Edit::ToggleOrder(a) => fix(*a).map(Edit::ToggleOrder),
                 Edit::Delete(a, m) => fix(*a).map(|a| Edit::Delete(a, *m)),
             };
             if let Some(m) = m {
